@@ -327,15 +327,7 @@ func init() {
 			}
 			total := mc.SeqStats{}
 			per := map[string]mc.SeqStats{}
-			for i := 0; i < 2*len(c15Engines); i++ {
-				d := depth
-				e := c15Engines[i%len(c15Engines)] + []string{"/restart", "/standby"}[i/len(c15Engines)]
-				st := mc.DriveSeq(c, "bfs", i, len(c15OpNames), d)
-				per[e] = st
-				total.States += st.States
-				total.Transitions += st.Transitions
-				total.Evals += st.Evals
-			}
+			// the allocator search first: it is cheap, a budget cut in the node-level histories must not skip it
 			tsoDepth := 8
 			if c.Tier == "thorough" {
 				tsoDepth = 11
@@ -345,6 +337,15 @@ func init() {
 			total.States += st.States
 			total.Transitions += st.Transitions
 			total.Evals += st.Evals
+			for i := 0; i < 2*len(c15Engines); i++ {
+				d := depth
+				e := c15Engines[i%len(c15Engines)] + []string{"/restart", "/standby"}[i/len(c15Engines)]
+				st := mc.DriveSeq(c, "bfs", i, len(c15OpNames), d)
+				per[e] = st
+				total.States += st.States
+				total.Transitions += st.Transitions
+				total.Evals += st.Evals
+			}
 			c.Cov["states"] = total.States
 			c.Cov["transitions"] = total.Transitions
 			c.Cov["oracle_evaluations"] = total.Evals
